@@ -108,7 +108,7 @@ def _shape_init(eng, loc):
 
 contract("qubovert.utils._dict_arithmetic:DictArithmetic.__init__", props=["C05", "C14", "C19"],
          instances=[{"self": "newmodel:" + c, "args": a, "kwargs": "emptydict"} for c in ALL
-                    for a in ("tuple:", "tuple:termdict", "tuple:model:" + c)],
+                    for a in ["tuple:", "tuple:termdict"] + ["tuple:model:" + o for o in (BOOL if c in BOOL else SPIN)]],
          call_when=_shape_init,
          requires=["is_empty(self)", "len(args) == 0 or keysvalid(self, args[0])", "len(args) == 0 or distinct(self, args[0])",
                    "bk(self)"],
@@ -130,7 +130,10 @@ contract("qubovert.utils._dict_arithmetic:DictArithmetic.copy", props=["C05", "C
 
 # ---------------------------------------------------------------------------------- in-place arithmetic
 def _others(c):
-    return ["termdict", "model:" + c, "real"]
+    # the other operand: a raw term dict, a number, or a model of *any* class of the same kind (boolean / spin) -
+    # PCBO += PUBO, PUBO * PCBO and the like occur inside the constraint methods
+    same = BOOL if c in BOOL else SPIN
+    return ["termdict", "real"] + ["model:" + o for o in same]
 
 
 for op, sign in (("__iadd__", "+"), ("__isub__", "-")):
